@@ -18,13 +18,14 @@ if [ -x "$WT/.fv-target/release/c03" ]; then
   python3 - "$OUT" <<'PY'
 import json,sys,collections,re
 r=json.load(open(sys.argv[1]))
-known=re.compile(r"^font=tthint_subset\.ttf#0 gid=(1|2) ppem=\d+ mode=interp-")
-fails=[f for f in r["oracle_failures"] if not (f["oracle"]=="outline:path==freetype" and known.search(f["input"]))]
+# the known findings of C03 (known_findings.d/C03.json), matched exactly as ./check matches them
+known=[(re.compile(k["match"].get("oracle",".*")), re.compile(k["match"].get("input",".*"))) for k in json.load(open("/verif/known_findings.d/C03.json"))["findings"]]
+fails=[f for f in r["oracle_failures"] if not any(o.search(f["oracle"]) and i.search(f["input"]) for o,i in known)]
 print("cases",r["correspondence_cases"],"disagreements",r["disagreement_count"],"oracle_failures(not known)",len(fails),"known",len(r["oracle_failures"])-len(fails))
 print("groups:",collections.Counter(d["group"] for d in r["disagreements"]).most_common(8))
 print("oracles:",collections.Counter(f["oracle"] for f in fails).most_common(8))
 for d in r["disagreements"][:2]: print(" dis:",d)
-for f in fails[:3]: print(" fail:",f)
+for f in fails[:3]: print(" fail:",{k:(v[:400] if isinstance(v,str) else v) for k,v in f.items()})
 PY
 else
   echo "HARNESS-BUILD-FAILED (the check would report harness-build broken, no-failing-input-found)"
